@@ -579,7 +579,7 @@ func runC19(c *Ctx) {
 			c17FailClosed(c, gg)
 			c.R = saved
 			for _, o := range sub.Obs {
-				if !strings.Contains(o.Construct, "exactly as given") {
+				if !strings.Contains(o.Construct, "exactly as given") && !strings.Contains(o.Construct, "only by SetDecorationNamed") {
 					continue
 				}
 				ob := r.Check("R19.3", o.Func, "name-resolution premise: "+o.Construct, 0, o.Verdict == "discharged", "a listed name must select the decoration registered under that spelling")
